@@ -252,7 +252,7 @@ func (x *Exec) compile(env *Env, e SExpr) Value {
 		if bt.IsTrue() || bt.IsFalse() {
 			return TV{bt, tBool}
 		}
-		return TV{&Term{Op: op, Sort: SBool, Bound: bound, Args: []*Term{bt}}, tBool}
+		return TV{MkQuant(op, bound, bt), tBool}
 	case *SIndex:
 		base := x.compileTV(env, e.X)
 		idx := x.compileTV(env, e.I)
